@@ -16,7 +16,16 @@ try:
     clean = run(["/venv/bin/python", f"{src}/demo.py"], env=env, cwd=src, timeout=900)
     meta["demo_on_unchanged_tree_exit"] = clean.returncode
     a = run(["git", "-C", wt, "apply", f"{src}/patch.diff"])
+    rebased = False
+    if a.returncode != 0:
+        a = run(["git", "-C", wt, "apply", "-C1", "--recount", f"{src}/patch.diff"])
+        rebased = a.returncode == 0
+    if a.returncode != 0:
+        a = run(["patch", "-p1", "--fuzz=3", "--no-backup-if-mismatch", "-d", wt, "-i", f"{src}/patch.diff"])
+        rebased = a.returncode == 0
     meta["patch_applies"] = a.returncode == 0
+    meta["patch_rebased_onto_fixed_tree"] = rebased
+    rebased_diff = run(["git", "-C", wt, "diff"]).stdout if rebased else None
     if a.returncode == 0:
         mut = run(["/venv/bin/python", f"{src}/demo.py"], env=env, cwd=src, timeout=900)
         meta["demo_with_change_exit"] = mut.returncode
@@ -32,6 +41,9 @@ try:
         os.makedirs(dst, exist_ok=True)
         for f in ("patch.diff", "demo.py", "notes.md"):
             shutil.copy(f"{src}/{f}", dst)
+        if rebased_diff:
+            shutil.copy(f"{src}/patch.diff", f"{dst}/patch.orig.diff")
+            open(f"{dst}/patch.diff", "w").write(rebased_diff)
         meta["caught_by"] = {}
         json.dump(meta, open(f"{dst}/meta.json", "w"), indent=1)
     print(pid, x, "CONFIRMED" if ok else "REJECTED", {k: v for k, v in meta.items() if k not in ("needs_to_manifest",)})
